@@ -674,6 +674,15 @@ impl<T: Send> UnboundedShared<T> {
             self.reclaim(&mut c, item, &mut wakes);
           }
           ctx.cell.rearm();
+        } else if ctx.cell.state.load(Ordering::Acquire) == WAITER_NOTIFIED && !EAGER_HANDOFF {
+          // The wake-one notification was spent on this wait, which will not
+          // act on it: pass it on so an item can never strand while another
+          // consumer sleeps.
+          if let Some(e) = c.waiters.pop_front() {
+            e.cell.state.store(WAITER_NOTIFIED, Ordering::Release);
+            wakes.0.push(e.wake);
+            self.store_waiter_count(&c);
+          }
         }
       }
     }
